@@ -91,6 +91,7 @@ def make_world(driver, callers_spec, mode="plain", dup=False):
             from dalimc.aio.hidworld import HidWorld
             w = HidWorld(driver, bus, callers)
             w.dup = dup
+            w.reorder_reports = not dup       # (the duplicate report of the firmware quirk belongs to a LATER bus frame: it cannot overtake)
         else:
             from dalimc.aio.serialworld import SerialWorld
             w = SerialWorld(driver, bus, callers)
